@@ -14,8 +14,11 @@ import os
 import sys
 import traceback
 
-from . import common
+from . import common, fingerprint
 from .common import Ctx, InfraError
+
+
+EXTRA_ROUNDS = 2   # additional quick-tier correspondence rounds when the modelled source text has changed
 
 
 def load(prop):
@@ -73,14 +76,27 @@ def main(argv=None):
         # ---- 2. correspondence (model vs implementation) -----------------------------------
         common.run_defect_corpus(ctx)   # regression witnesses of repaired defects run first
         corr_exc = None
-        try:
-            mod.correspondence(ctx)
-        except InfraError:
-            raise
-        except Exception as e:  # an exception escaping from the real code counts as a broken correspondence
-            corr_exc = traceback.format_exc()
-            ctx.disagreements.append({"stream": "exception", "case": None, "impl": common.errname(e),
-                                      "model": None, "detail": corr_exc[-3000:]})
+        # modelled source that differs from the text the model was validated against: not a violation, but the model is then
+        # tied to the code by the differential run alone -> extra rounds with fresh random streams (harness/fingerprint.py)
+        changed = fingerprint.changed_units(prop)
+        rounds = 1 + (EXTRA_ROUNDS if changed and a.tier == "quick" else 0)
+        if changed:
+            print(f"[{prop}] modelled source changed since the model was validated ({len(changed)} unit(s): "
+                  f"{', '.join(changed[:4])}{' ...' if len(changed) > 4 else ''}) -> {rounds} correspondence round(s)", flush=True)
+        extra["modelled_source"] = {"changed_units": changed[:50], "correspondence_rounds": rounds}
+        for rnd in range(rounds):
+            if rnd:
+                ctx.reseed(rnd)
+            try:
+                mod.correspondence(ctx)
+            except InfraError:
+                raise
+            except Exception as e:  # an exception escaping from the real code counts as a broken correspondence
+                corr_exc = traceback.format_exc()
+                ctx.disagreements.append({"stream": "exception", "case": None, "impl": common.errname(e),
+                                          "model": None, "detail": corr_exc[-3000:]})
+            if ctx.disagreements or ctx.oracle_failures:
+                break
         ndis = len(ctx.disagreements)
         print(f"[{prop}] correspondence: evaluations={ctx.evaluations} distinct_nontrivial={len(ctx.distinct)} "
               f"disagreements={ndis} oracle_failures={len(ctx.oracle_failures)} "
@@ -134,14 +150,15 @@ def main(argv=None):
                                 "first": [d for d in ctx.disagreements if d][:5]})
             if fresh:
                 payload = {"property": prop, "seed": seed, "tier": a.tier, "kind": "failing-input",
-                           "witness": fresh[0], "more_witnesses": fresh[1:6], "broken": reasons}
+                           "witness": fresh[0], "more_witnesses": fresh[1:6], "broken": reasons,
+                           "modelled_source_changed": changed[:50]}
                 path = common.write_replay(ctx, payload)
                 print(f"VIOLATION property={prop} replay={path}")
                 violations = len(fresh)
                 rc = 1
             elif (not lean["ok"]) or ndis > 0:
                 payload = {"property": prop, "seed": seed, "tier": a.tier, "kind": "no-failing-input-found",
-                           "no_longer_checks": reasons}
+                           "no_longer_checks": reasons, "modelled_source_changed": changed[:50]}
                 path = common.write_replay(ctx, payload, tag="nf")
                 print(f"VIOLATION property={prop} replay={path} no-failing-input-found")
                 violations = 1
